@@ -40,6 +40,7 @@ def deep(name, grammars, depths, **kw):
 PLANS = {
     "C01": {
         "quick": [ex("peg2", "peg", 2, 3, alphabet=["a", "b", "Z"]), ex("pegI2", "pegI", 2, 3, modes=["E"]), ex("stat", "stat", 1, 3, alphabet=["a", "b", "E"], kinds=["static", "staticc", "str"]),
+                  ex("progT", "progT", 1, 4, alphabet=["a", "b", "!"]),
                   rec("pegR", "peg", 1500, 8, 8)],
         "thorough": [ex("peg2", "peg", 2, 4, alphabet=["a", "b", "E"]), ex("peg3", "peg", 3, 3), ex("pegI3", "pegI", 3, 3, timeout=3000), ex("stat", "stat", 1, 5, alphabet=["a", "b", "E"], kinds=["static", "staticc", "str"]),
                      rec("pegR", "peg", 20000, 10, 10)],
@@ -58,11 +59,12 @@ PLANS = {
     },
     "C04": {
         "quick": [ex("peg2", "peg", 2, 3), ex("emit3", "emit", 3, 3), ex("ctx2", "ctx", 2, 3), ex("stat", "stat", 1, 3, kinds=["static"]),
-                  ex("extT", "extT", 1, 4, alphabet=["a", "b", "c"], etys=["rich", "simple"]), rec("emitR", "emit", 1500, 8, 8), rec("pegR", "peg", 1000, 8, 8), rec("ctxR", "ctx", 1000, 8, 8)],
+                  ex("extT", "extT", 1, 4, alphabet=["a", "b", "c"], etys=["rich", "simple"]), ex("progT", "progT", 1, 3, alphabet=["a", "b", "!"]), rec("emitR", "emit", 1500, 8, 8), rec("pegR", "peg", 1000, 8, 8), rec("ctxR", "ctx", 1000, 8, 8)],
         "thorough": [ex("peg3", "peg", 3, 3), ex("emit4", "emit", 4, 3), ex("ctx3", "ctx", 3, 3), rec("emitR", "emit", 20000, 10, 10), rec("pegR", "peg", 20000, 10, 10), rec("ctxR", "ctx", 10000, 10, 10)],
     },
     "C05": {
         "quick": [ex("emit4", "emit", 4, 3), ex("rcvE", "rcvE", 1, 4, alphabet=["a", "b", "!"], modes=["E"]), ex("rcv3", "rcv", 3, 3, modes=["E"]),
+                  ex("progT", "progT", 1, 3, alphabet=["a", "b", "!"], modes=["E"]),
                   rec("emitR", "emit", 3000, 8, 8), rec("rcvR", "rcv", 1500, 8, 8)],
         "thorough": [ex("emit4", "emit", 4, 4), ex("rcvE", "rcvE", 1, 6, alphabet=["a", "b", "!"]), ex("rcv3", "rcv", 3, 4), ex("rcvT", "rcvT", 1, 5, alphabet=["a", "b", "!"]),
                      rec("emitR", "emit", 40000, 10, 10), rec("rcvR", "rcv", 30000, 10, 10)],
@@ -84,6 +86,7 @@ PLANS = {
                   ex("gapT", "gapT", 1, 3, alphabet=["a", "b", "E"], kinds=["str", "mapped"], modes=["E"], invariants=INV_SPANS),
                   ex("spni3", "spni", 3, 3, kinds=["iter"], modes=["E"], invariants=INV_SPANS), ex("gapTi", "gapTi", 1, 3, kinds=["iter"], modes=["E"], invariants=INV_SPANS),
                   ex("spnr3", "spnr", 3, 3, kinds=["mapped"], modes=["E"], invariants=INV_SPANS),
+                  ex("progT", "progT", 1, 3, alphabet=["a", "b", "E"], kinds=["str", "mapped"], modes=["E"], invariants=INV_SPANS),
                   rec("spnR", "spn", 1500, 8, 8, kinds=["str", "slice"]), rec("spngR", "spng", 1500, 8, 8, kinds=["mapped", "mstream", "stream"]),
                   rec("spnrR", "spnr", 1000, 8, 8, kinds=["mapped", "slice", "wctx", "mapspan"])],
         "thorough": [ex("spn3", "spn", 3, 4, alphabet=["a", "b", "E"], kinds=["str"], invariants=INV_SPANS),
@@ -112,6 +115,7 @@ PLANS = {
                   ex("spng3k", "spng", 3, 3, kinds=["mstream", "wctx", "mapspan"], modes=["E"]),
                   ex("gapTk", "gapT", 1, 3, kinds=["mapped", "mstream", "wctx", "io"], modes=["E"]),
                   ex("spni3", "spni", 3, 3, kinds=["iter"], modes=["E"]), ex("gapTi", "gapTi", 1, 3, kinds=["iter"], modes=["E"]),
+                  ex("progTk", "progT", 1, 3, kinds=["stream", "io", "mstream", "wctx", "array"], modes=["E"]),
                   rec("longS", "seek", 24, 7, 1100, minlen=500, kinds=["stream", "bstream", "mstream"]),
                   rec("pegRk", "peg", 2500, 8, 8, kinds=ALL_KINDS), rec("spngRk", "spng", 1500, 8, 8, kinds=["mapped", "mstream", "stream", "wctx", "mapspan", "io"])],
         "thorough": [ex("peg2k", "peg", 2, 3, kinds=ALL_KINDS), ex("rep2k", "rep", 2, 4, alphabet=["a", ","], kinds=ALL_KINDS, modes=["E"]),
@@ -186,6 +190,7 @@ PLANS = {
     },
     "C18": {
         "quick": [ex("peg2", "peg", 2, 3), ex("pegI2", "pegI", 2, 3), ex("emit3", "emit", 3, 3), ex("txtc", "txtc", 1, 3, alphabet=["1", "a", "S", "+"], modes=["E"]),
+                  ex("progT", "progT", 1, 3, alphabet=["a", "b", "!"]),
                   rec("pegR", "peg", 1500, 8, 8, kinds=["str", "slice", "stream"]), rec("emitR", "emit", 1500, 8, 8), rec("txtR", "txt", 800, 6, 8), rec("rcvR", "rcv", 800, 8, 8)],
         "thorough": [ex("peg3", "peg", 3, 3), ex("emit4", "emit", 4, 3), ex("txtc", "txtc", 1, 4, alphabet=["1", "a", "S", "N", "+"]), ex("rcv3", "rcv", 3, 3, modes=["E"]),
                      rec("pegR", "peg", 20000, 10, 10, kinds=["str", "slice", "stream"]), rec("emitR", "emit", 20000, 10, 10), rec("txtR", "txt", 10000, 6, 10),
